@@ -340,8 +340,71 @@ def weighted_sample(rng, pts, k):
     return out
 
 
+FAULT_TARGET_KINDS = ("insert", "delete", "save_kg", "save_all", "compact_all", "compact_if_needed")
+EIO, ENOSPC, EINTR, EMFILE = 5, 28, 4, 24
+
+
+def fault_code(rng, kind, ln):
+    """An I/O fault that a real deployment meets at a call of this kind (positive = errno, negative = short write)."""
+    if kind == "write":
+        r = rng.below(10)
+        if r < 3:
+            return EIO
+        if r < 6:
+            return ENOSPC
+        if r < 8 and ln > 1:
+            return -(1 + rng.below(max(1, min(ln - 1, 64))))
+        return EINTR
+    if kind == "fsync":
+        return EIO if rng.chance(3, 4) else EINTR
+    if kind == "create":
+        return [ENOSPC, EMFILE, EIO, EINTR][rng.below(4)]
+    if kind in ("rename", "mkdir"):
+        return [EIO, ENOSPC][rng.below(2)]
+    return EIO
+
+
+def fault_mix_cases(hist, douts, post_ops, tier, variants_quick=2, variants_thorough=8):
+    """DESIGN §3 'other fault kinds' / §6.4: re-run histories with one or two injected I/O errors inside
+    insert/delete/save/compact operations, then a crash (end of history or a later event) or a clean restart,
+    then the latent-damage tail. Fault-free and fault-injecting configurations are separate runs."""
+    cases = []
+    for c, d in zip(hist, douts):
+        if d.get("status") != "ok":
+            continue
+        ranges = [(a, b) for (a, b, k) in d.get("op_ranges", []) if k in FAULT_TARGET_KINDS and b > a]
+        if not ranges:
+            continue
+        tr = {e[0]: e for e in d.get("trace", [])}
+        evs = [tr[o] for (a, b) in ranges for o in range(a, b) if o in tr]
+        if not evs:
+            continue
+        rng = PRng(c["seed"] ^ 0xFA17)
+        m = d.get("events", 0)
+        for _v in range(variants_quick if tier == "quick" else variants_thorough):
+            cc = copy.deepcopy(c)
+            picks = 1 if rng.chance(7, 10) else 2
+            faults = {}
+            for _ in range(picks):
+                o, kind, _path, ln = evs[rng.below(len(evs))]
+                faults[o] = fault_code(rng, kind, ln)
+            cc["faults"] = sorted([o, code] for o, code in faults.items())
+            first = min(faults)
+            r = rng.below(10)
+            if r < 5:
+                cc["crash"] = {"at": m + 1000, "inflight_write": False, "image": {"draw": rng.next()}, "second": None}
+                cc["post_ops"] = post_ops
+            elif r < 8 and m > first + 1:
+                cc["crash"] = {"at": first + 1 + rng.below(m - first), "inflight_write": rng.chance(1, 2), "image": {"draw": rng.next()}, "second": None}
+                cc["post_ops"] = post_ops
+            else:
+                cc["ops"] = cc["ops"] + [{"op": "restart"}] + [op for op in post_ops]
+            cases.append(cc)
+    return cases
+
+
 def crash_check(prop, tier, seed, family, post_family, oracles, interesting, n_hist_quick, k_quick, n_hist_thorough, rule, assumptions,
-                second_ratio=5, level="fault_enumeration"):
+                second_ratio=5, level="fault_enumeration", fault_mix=False):
     acc = Acc(prop, tier, seed, oracles, level)
     n_hist = n_hist_quick if tier == "quick" else n_hist_thorough
     hist = gen(family, seed, 0, n_hist)
@@ -398,6 +461,24 @@ def crash_check(prop, tier, seed, family, post_family, oracles, interesting, n_h
     determinism_spot_check(cases, outs, k=12)
     for c, o in zip(cases, outs):
         acc.add(c, o, (o.get("crash_fired") or o.get("crash_boundary")) and has_kind(c, ("insert", "delete", "register_rule", "register_schema", "create_kg", "drop_kg", "drop_relation")))
+    if fault_mix:
+        fcases = fault_mix_cases(hist, douts, post_ops, tier)
+        t = time.time()
+        fouts = execute(fcases, timeout_s=300)
+        log(f"[{prop}] {len(fcases)} I/O-error fault-mix runs in {time.time() - t:.1f}s")
+        determinism_spot_check(fcases, fouts, k=8)
+        fm = collections.Counter()
+        for c, o in zip(fcases, fouts):
+            fired = (o.get("fs") or {}).get("faults_errno", 0) + (o.get("fs") or {}).get("faults_short", 0)
+            acc.add(c, o, fired > 0 and has_kind(c, ("insert", "delete")))
+            fm["runs"] += 1
+            fm["runs_with_fault_fired"] += 1 if fired else 0
+            fm["operations_left_indeterminate"] += o.get("indeterminate_ops", 0)
+            fm["max_candidate_models"] = max(fm["max_candidate_models"], o.get("max_candidates", 0))
+            for code, n in (o.get("errno_by_code") or {}).items():
+                fm["errno_%s" % {"5": "EIO", "28": "ENOSPC", "4": "EINTR", "24": "EMFILE"}.get(str(code), code)] += n
+            fm["short_writes"] += (o.get("fs") or {}).get("faults_short", 0)
+        acc.extra["io_error_fault_mix"] = dict(fm)
     acc.extra["histories"] = len(hist)
     acc.extra["crash_point_candidates_after_collapsing"] = crashpoints_total
     acc.extra["crash_windows_targeted"] = dict(windows.most_common(40))
@@ -417,9 +498,14 @@ def check_c13(tier, seed):
             "data}, every fifth run crashes a second time inside recovery; oracles: store reopens, contents = acknowledged prefix (+/- the in-flight operation, "
             "atomically), then 7 more operations incl. delete/re-insert/query and two clean restarts must match the model (latent damage, bounded liveness); "
             "non-trivial = a crash fired and the history contains a state-changing operation")
+    rule += ("; separate fault-mix configuration: the same histories re-run with one or two injected I/O errors (EIO, ENOSPC, EMFILE, EINTR, short writes) at file-system "
+             "calls inside insert/delete/save/compact operations, followed by a crash or a clean restart and the same tail; an operation that returned an error after an "
+             "injected fault is indeterminate (wholly applied or wholly absent, may surface only across a restart), every acknowledged operation must survive, the store must reopen")
     return crash_check("C13", tier, seed, "c13", "post_standard", oracles,
                        ["batch", "shard-meta", "wal", "unlink", "rename", "rmdir"], 260, 6, 150, rule,
-                       ASSUME_COMMON + ["immediate durability mode only (the property's scope)", "rule/schema catalog writes are left to C16"])
+                       ASSUME_COMMON + ["immediate durability mode only (the property's scope)", "rule/schema catalog writes are left to C16",
+                                        "I/O errors are injected only inside insert/delete/save/compact operations (a drop that fails half-way is outside the statement)"],
+                       fault_mix=True)
 
 
 def check_c16(tier, seed):
